@@ -83,7 +83,9 @@ META = {
         "R6: every jinja2 environment constructed in code reachable from a front end's render (the substitution extension evaluates "
         "expressions written in the document) is SandboxedEnvironment/ImmutableSandboxedEnvironment or a package subclass that only restricts the sandbox (an override of "
         "is_safe_attribute/is_safe_callable must return False or conjoin/guard its result with super()'s verdict; getattr/getitem/call "
-        "overrides must delegate to super()); a template-context entry holding the live Sphinx environment (sphinx_env / "
+        "overrides must delegate to super()); module-level (shared) environments are judged like local ones, and a context that can hold the live environment "
+        "must not be copied into the globals of a shared environment (they outlive the guard and the parse); "
+        "a template-context entry holding the live Sphinx environment (sphinx_env / "
         "settings.env / its app) is dominated by truth tests of BOTH switches - the sandbox cannot police application objects, "
         "which reach the file system and exec(); "
         "jinja2.Environment, NativeEnvironment or jinja2.Template there is a violation (expressions reach open() and the settings "
@@ -2390,6 +2392,36 @@ def r6_templates_sandboxed(corpus: Corpus, rep: Report, tier: str):
                 if bad is not None:
                     weakened[full_] = bad
     n = 0
+    by_fq = {f.fq: f for f in corpus.all_functions()}
+    # shared (module-level) environments: NAME = <Environment class>(...) at the top level of a module
+    shared_envs: dict[str, tuple[object, ast.Call, str]] = {}  # "<module>.<NAME>" -> (module, call, class)
+    for m in corpus.modules.values():
+        for nm, val in m.const_nodes.items():
+            if isinstance(val, ast.Call):
+                d = dotted(val.func)
+                full = m.resolve(d) if d else ""
+                if full in safe or full in UNSAFE_TEMPLATE or (full.startswith("jinja2.") and full.rsplit(".", 1)[-1].endswith(("Environment", "Template"))):
+                    shared_envs[f"{m.name}.{nm}"] = (m, val, full)
+
+    def users_of(shared: str) -> list[FunctionInfo]:
+        out_ = []
+        for fq_ in reach:
+            f_ = by_fq.get(fq_)
+            if f_ is None:
+                continue
+            nodes_ = f_.local_nodes() if not f_.is_lambda else list(ast.walk(f_.node.body))
+            for x in nodes_:
+                if isinstance(x, (ast.Name, ast.Attribute)) and isinstance(getattr(x, "ctx", None), ast.Load):
+                    d_ = dotted(x)
+                    if d_ and f_.module.resolve(d_) == shared:
+                        out_.append(f_)
+                        break
+        return out_
+
+    sites: list[tuple[str, str, str, bool, list[str], FunctionInfo | None]] = []  # (class, key, site, reachable, chain, function)
+    for shared, (m, call_, full) in shared_envs.items():
+        us = users_of(shared)
+        sites.append((full, f"{shared}|{short(call_.func, 50)}(...) shared by the whole process", m.site(call_), bool(us), reach.get(us[0].fq, []) if us else [], None))
     for fi in corpus.all_functions():
         for c in _own_calls(fi):
             d = dotted(c.func)
@@ -2399,12 +2431,14 @@ def r6_templates_sandboxed(corpus: Corpus, rep: Report, tier: str):
             last = full.rsplit(".", 1)[-1]
             if full not in safe and full not in UNSAFE_TEMPLATE and not last.endswith(("Environment", "Template")):
                 continue
-            k = f"{fi.fq}|{short(c.func, 50)}(...)"
-            site = fi.module.site(c)
             owner = fi
             while owner.parent_func is not None:
                 owner = owner.parent_func
-            if owner.fq not in reach and fi.fq not in reach:
+            sites.append((full, f"{fi.fq}|{short(c.func, 50)}(...)", fi.module.site(c), owner.fq in reach or fi.fq in reach, reach.get(fi.fq, reach.get(owner.fq, [])), fi))
+    for full, k, site, reachable_, chain_, fi in sites:
+        last = full.rsplit(".", 1)[-1]
+        if True:
+            if not reachable_:
                 rep.listed("C20.R6", k, site, "not reachable from a front end's render (templates there do not come from a parsed document)")
                 continue
             n += 1
@@ -2417,7 +2451,7 @@ def r6_templates_sandboxed(corpus: Corpus, rep: Report, tier: str):
                     f"{last} derives from jinja2's sandbox but {m_.qualname} {why_}: the checks of the base class (is_internal_attribute: gi_frame/gi_code, cr_frame, "
                     "f_globals/tb_frame of frames, mro, func_globals, ...; unsafe callables) no longer apply to expressions written in the document, "
                     "which can then reach open() and the settings object again",
-                    reach.get(fi.fq, reach.get(owner.fq, [])),
+                    chain_,
                 )
             elif full in safe:
                 rep.ok("C20.R6", k, site, f"{last}: attribute access to internals (__globals__, __builtins__, ...) is refused")
@@ -2429,7 +2463,7 @@ def r6_templates_sandboxed(corpus: Corpus, rep: Report, tier: str):
                     f"{UNSAFE_TEMPLATE[full]} evaluates expressions written in the document without a sandbox: "
                     "`{{ lipsum.__globals__[\"__builtins__\"][\"open\"](path).read() }}` inserts a file although file_insertion_enabled is false, "
                     "and an exec() through the same route switches document.settings.raw_enabled back on",
-                    reach.get(fi.fq, reach.get(owner.fq, [])),
+                    chain_,
                 )
             else:
                 raise Unsupported(f"{site}: unknown jinja2 environment class `{full}`")
@@ -2439,9 +2473,32 @@ def r6_templates_sandboxed(corpus: Corpus, rep: Report, tier: str):
     for fi in corpus.all_functions():
         if fi.is_lambda or fi.fq not in reach:
             continue
-        if not any((fi.module.resolve(dotted(c.func) or "") in safe | set(UNSAFE_TEMPLATE)) for c in _own_calls(fi)):
+        uses_shared = {sh for sh in shared_envs if any(isinstance(x, (ast.Name, ast.Attribute)) and isinstance(getattr(x, "ctx", None), ast.Load) and dotted(x) and fi.module.resolve(dotted(x)) == sh for x in fi.local_nodes())}
+        if not uses_shared and not any((fi.module.resolve(dotted(c.func) or "") in safe | set(UNSAFE_TEMPLATE)) for c in _own_calls(fi)):
             continue
         cfg = get_cfg(fi)
+        # names of this function's context objects that (may) hold the live environment
+        live_ctx = {unparse(n_.targets[0].value) for n_ in fi.local_nodes() if isinstance(n_, ast.Assign) and len(n_.targets) == 1 and isinstance(n_.targets[0], ast.Subscript) and _is_live_env(n_.value, fi)}
+        for c in _own_calls(fi):
+            f_ = c.func
+            # <env>.globals.update(ctx) / <env>.globals[...] = ... on an environment that outlives the parse
+            if isinstance(f_, ast.Attribute) and f_.attr in ("update", "setdefault") and isinstance(f_.value, ast.Attribute) and f_.value.attr == "globals":
+                envx = _deref(f_.value.value, fi)
+                dx = dotted(envx) if envx is not None else None
+                sh = fi.module.resolve(dx) if dx else ""
+                if sh in shared_envs:
+                    carried = [a_ for a_ in list(c.args) + [kw.value for kw in c.keywords] if unparse(a_) in live_ctx or _is_live_env(a_, fi) or (isinstance(a_, ast.Dict) and any(v_ is not None and _is_live_env(v_, fi) for v_ in a_.values))]
+                    k = f"{fi.fq}|globals of the shared template environment {sh.rsplit('.', 1)[-1]}"
+                    if carried:
+                        rep.violation(
+                            "C20.R6",
+                            k,
+                            fi.module.site(c),
+                            f"`{short(c, 60)}` copies a context that can hold the live Sphinx environment into the globals of the module-level environment {sh.rsplit('.', 1)[-1]}, which outlives the guard: "
+                            "once one document was rendered with both switches on, `env` stays a global for every later document of the process, also where raw_enabled / file_insertion_enabled are off",
+                        )
+                    else:
+                        rep.ok("C20.R6", k, fi.module.site(c), "no live application object is stored in the shared environment")
         for n_ in fi.local_nodes():
             exposures: list[tuple[ast.AST, ast.expr]] = []
             if isinstance(n_, ast.Assign) and len(n_.targets) == 1 and isinstance(n_.targets[0], ast.Subscript) and _is_live_env(n_.value, fi):
@@ -2795,6 +2852,18 @@ def mutants(corpus: Corpus):
             out.append(Mutant(mid, "C20.R6", base.rel, splice(base.src, envc.func, "_SubstitutionEnvironment") + txt, expect="sandbox hook replaced"))
     else:
         out.append(("c20-substitution-environment-not-sandboxed", "no SandboxedEnvironment(...) in render_substitution"))
+    # R6: one module-level environment shared by all parses (judged like a local one; its globals outlive the guard)
+    if envc is not None:
+        rnd = find_node(rsub, lambda n: isinstance(n, ast.Call) and isinstance(n.func, ast.Attribute) and n.func.attr == "render" and n.args and unparse(n.args[0]) == "variable_context")
+        env_asg = parent(envc) if isinstance(parent(envc), ast.Assign) else None
+        if rnd is not None and env_asg is not None and isinstance(env_asg.targets[0], ast.Name):
+            evar = env_asg.targets[0].id
+            srcs_ = splice(base.src, rnd, segment(base.src, rnd.func) + "()")
+            srcs_ = splice(srcs_, env_asg, f"{evar} = SUBSTITUTION_ENV\n{indent_of(rsub, env_asg)}{evar}.globals.update(variable_context)")
+            shared_def = "\n\nSUBSTITUTION_ENV = " + segment(base.src, envc) + "\n"
+            out.append(Mutant("c20-substitution-shared-environment-keeps-env-global", "C20.R6", base.rel, srcs_ + shared_def, expect="shared template environment"))
+            srcp_ = splice(base.src, env_asg, f"{evar} = SUBSTITUTION_ENV")
+            out.append(Mutant("c20-substitution-shared-environment-not-sandboxed", "C20.R6", base.rel, srcp_ + "\n\nSUBSTITUTION_ENV = jinja2.Environment(undefined=jinja2.StrictUndefined)\n", expect="SUBSTITUTION_ENV"))
     # R6: revert / partial weakenings of a0ca114 - the live Sphinx environment handed to document-written expressions
     env_if = find_node(rsub, lambda n: isinstance(n, ast.If) and any(isinstance(x, ast.Assign) and isinstance(x.targets[0], ast.Subscript) and "sphinx_env" in unparse(x.value) for x in n.body))
     if env_if is not None:
